@@ -47,8 +47,9 @@ def r1_gated_stores(chk):
         for s in ir.record_stores(fn):
             if len(s.key) == 1 and s.key[0] in GATED:
                 n += 1
-                pos = any(b and any(mentions_text_switch(c) and not isinstance(c, ast.UnaryOp)
-                                    for c in ir.conjuncts(t)) for t, b in s.guards)
+                # the switch itself must be an and-conjunct of a test on whose true branch the store lies (an `or`
+                # with the switch, a negation or a comparison does not gate)
+                pos = any(b and any(norm(c) == "self.genRules['text']" for c in ir.conjuncts(t)) for t, b in s.guards)
                 chk.ob('C15.R1', 'IntermediateCodeGen.%s/%s' % (mname, s.key[0]), pos, where(mod, s.node),
                        '%s is stored whether or not texts were requested (guards: %s)' % (
                            s.key[0], [norm(t) for t, b in s.guards]))
